@@ -1532,6 +1532,7 @@ def _run_replicas(res, replicas, op, live, outcome, mode, solver, oi):
             # internal data may only be reused while the set of active elements is unchanged
             kw["reuse_internal_data"] = False
         out, exc_ = _run_pipeflow(s.net, kw, solver, [])
+        s.last_kw = kw
         if out.startswith("exc:"):
             out = "%s:%s" % (out, _slug(exc_)[:28])
         s.primed = out == "ok"
@@ -1544,12 +1545,23 @@ def _run_replicas(res, replicas, op, live, outcome, mode, solver, oi):
         # the reference itself left with a foreign exception: that is C05's finding, nothing to compare
         res.count("probe:replica-reference-foreign-exception")
         return
-    from .e4 import _almost_converged, _ill_posed, _results_by_tag
+    from .e4 import _almost_converged, _ill_posed, _results_by_tag, _retry_with_patience
     for s, out in zip(replicas[1:], outs[1:]):
         if out != outs[0] and {out, outs[0]} == {"ok", "nc"} and _almost_converged(s.net if out == "nc" else ref.net):
             # the one that ran out of budget was creeping towards the solution at the round-off floor
             res.count("probe:slow-convergence-verdict-skipped")
             continue
+        if out != outs[0] and {out, outs[0]} == {"ok", "nc"}:
+            # Newton's path in an ill-conditioned net depends on round-off: the side that ran out of budget gets a
+            # far larger one (then strong damping); if it arrives, its results are compared like any others
+            slow = s if out == "nc" else ref
+            solver.begin_calc([])
+            if _retry_with_patience(slow.net, slow.last_kw):
+                res.count("probe:converged-with-larger-budget")
+                slow.primed = False
+                if slow is ref:
+                    outs[0] = "ok"
+                out = "ok"
         if out != outs[0]:
             res.violate("C07", "C07/verdict-differs:%s-vs-%s:%s-vs-%s@%s" % (ref.name, s.name, outs[0], out, mode), "%s vs %s" % (outs[0], out), oi)
             continue
